@@ -93,6 +93,21 @@ def build_ops(sig, rng):
     add("to_dask_array", lambda z: z.to_dask_array())
     add("rechunk", lambda z: z.rechunk())
     add("like", lambda z: type(z).like(z))
+    # construction that has to coerce the dtype (integer counts into a float class, real samples into a complex class): still lazy
+    if sig.dtype.kind in "fc" and type(sig)._req_dtype:
+        def coerce(z):
+            d = z.data
+            narrow = (d.real if d.dtype.kind == "c" else d)
+            narrow = (narrow * 8).astype(np.int16) if sig.dtype.kind == "f" else narrow.astype(np.float32)
+            return type(z).like(z, narrow)
+        add("construct_coerce", coerce)
+    if sig.dtype.kind in "fc":
+        # compute, an in-place operator on the same signal object, compute again: the second result shows the update
+        def compute_twice(z):
+            z.compute()
+            np.multiply(z, 2, out=z)
+            return z.compute()
+        add("compute_inplace_compute", compute_twice)
     c = int(rng.integers(1, n)) if n > 1 else 0
     if n > 1:
         add("concatenate", lambda z: pb.concatenate([z[:c], z[c:]]))
@@ -225,7 +240,7 @@ def wl_ops(ctx, idx, rng):
         out, dexc = ctx.call(o, fn, sig_da, expect="any", where=f"{label} on Dask data")
     ev1 = len(sent.events())
     ctx.count("oracle[lazy]")
-    eager_ops = {"compute", "persist"}
+    eager_ops = {"compute", "persist", "compute_inplace_compute"}
     if ev1 != ev0 and label not in eager_ops:
         ctx.violation(o, f"{label}: {ev1 - ev0} chunk loads of the input were executed while the result graph was being built", None,
                       dict(feats, what="eager"))
@@ -249,7 +264,7 @@ def wl_ops(ctx, idx, rng):
         if not isinstance(out, pb.Signal):
             ctx.violation(o, f"{label} returned {type(out).__name__} on Dask data", None, dict(feats, what="type"))
             return
-        want_dask = label != "compute"
+        want_dask = label not in ("compute", "compute_inplace_compute")
         if isinstance(out.data, da.Array) != want_dask:
             ctx.violation(o, f"{label}: result data is {type(out.data).__name__} (Dask-backed input)", None, dict(feats, what="container"))
         if not meta_equal(ctx, o, ref, out, feats):
